@@ -161,13 +161,22 @@ class replace(repo_ops.replace, install, uninstall):
         return install.add_data(self, domain)
 
     def finalize_data(self):
-        # XXX: should really restructure this into
-        # a rename of the unmerge dir, rename merge into it's place (for
-        # literal same fullver replacements), then wipe the unmerge
-        # that minimizes the window for races, and gets the data in place
-        # should unmerge somehow die.
-        uninstall.finalize_data(self)
-        install.finalize_data(self)
+        if self.remove_path == self.install_path:
+            # literal same fullver replacement: directories can't be swapped
+            # atomically, so keep the window down to two renames- move the old
+            # entry out of view, move the new one into its place, then wipe
+            # the old one.
+            update_mtime(self.repo.location)
+            uninstall._hide_data(self)
+            install.finalize_data(self)
+            shutil.rmtree(self.tmp_remove_path)
+            update_mtime(self.repo.location)
+        else:
+            # get the new version in place before retiring the old one, that
+            # way the package never vanishes from the repository should the
+            # unmerge somehow die.
+            install.finalize_data(self)
+            uninstall.finalize_data(self)
         return True
 
 
